@@ -2049,6 +2049,10 @@ func (d *Document) parseDocument() error {
 	}
 
 done:
+	if d.Body == nil {
+		// 主文档部件为空，或根元素不是过渡命名空间中的 w:document（例如 ISO Strict 文档）
+		return WrapError("parse_document", fmt.Errorf("%w: w:document root element not found in word/document.xml", ErrInvalidDocument))
+	}
 	Infof("解析完成，共 %d 个元素", len(d.Body.Elements))
 	return nil
 }
